@@ -32,6 +32,9 @@ func coreC17(tier string) []RunSpec {
 		out = append(out, RunSpec{Profile: "core:mixed-keysets-same-fee", Params: map[string]int{"scenario": 5, "fee": 1, "mints": 1, "k": k}})
 	}
 	for k := 0; k < 6; k++ {
+		out = append(out, RunSpec{Profile: "core:reclaim-first-after-rotation", Params: map[string]int{"scenario": 8, "fee": k % 3, "mints": 1, "k": k}})
+	}
+	for k := 0; k < 6; k++ {
 		out = append(out, RunSpec{Profile: "core:failed-pending-melt-reclaimed-first", Params: map[string]int{"scenario": 7, "fee": k % 3, "mints": 1, "k": k}})
 	}
 	for k := 0; k < 4; k++ {
@@ -158,6 +161,36 @@ func runC17(rc *RunCtx) {
 		rc.Nontrivial = true
 		return
 	}
+	if rc.P("scenario", 0) == 8 {
+		// tokens are out (pending, unredeemed), the mint rotates its keyset, and the very first thing each
+		// wallet does afterwards is reclaim - with whatever it remembers of the mint's keysets; then the
+		// wallet programs are restarted and reclaim again
+		for i := 0; i < 3; i++ {
+			ww.step = i
+			ww.StepSend()
+			ww.CheckWallets("step")
+		}
+		ww.StepRotate([]uint64{uint64(c17Fees[fi])})
+		for round := 0; round < 2; round++ {
+			for _, w := range ww.Wallets {
+				ww.step++
+				ww.op("w.reclaim remove=false")
+				ww.W.WalletOp(w, ww.name("reclaim."+w), nil, func(wl *wallet.Wallet) { wl.ReclaimUnspentProofs() })
+				ww.CheckWallets("step")
+				ww.checkHandedOutStillPending("after reclaim")
+			}
+			for range ww.Wallets {
+				ww.StepReload()
+			}
+			ww.CheckWallets("step")
+			ww.checkHandedOutStillPending("after reload")
+		}
+		ww.Settle()
+		ww.CheckWallets("settled")
+		rc.S.Probe("c17_reclaim_first_after_rotation")
+		rc.Nontrivial = true
+		return
+	}
 	if rc.P("scenario", 0) == 7 {
 		// a melt goes pending, its payment then fails, and the first thing the wallet does is reclaim
 		// (before it ever looks at the quote), with nothing else pending; then it spends and reconciles
@@ -256,6 +289,34 @@ func runC17(rc *RunCtx) {
 	ww.Settle()
 	ww.CheckWallets("settled")
 	rc.Nontrivial = rc.S.Stats["c17_conservation_checked"] > 2
+}
+
+// checkHandedOutStillPending: (fixed scenarios without restores) a token a wallet handed out whose proofs
+// are still unspent at the mint has not been reconciled: its value must still be in the sender's
+// pending set ("pending balance is exactly the value handed out ... and not yet reconciled").
+func (ww *WW) checkHandedOutStillPending(when string) {
+	for _, t := range ww.Tokens {
+		n := ww.node(t.From)
+		if t.Claimed || n == nil || n.Inner == nil {
+			continue
+		}
+		pend := map[string]bool{}
+		for _, p := range n.Inner.GetPendingProofs() {
+			pend[p.Secret] = true
+		}
+		var Ys []string
+		for _, p := range t.Proofs {
+			Ys = append(Ys, hY(p.Secret))
+		}
+		st := ww.W.MintState(t.Mint, Ys)
+		for _, p := range t.Proofs {
+			if st[hY(p.Secret)] == "UNSPENT" && !pend[p.Secret] {
+				ww.W.Book.Violate("C17.pending_dropped", ww.W.LastWalletOp, "%s handed out a proof of %d sat that is still unspent at the mint, but no longer holds it as pending (%s, after [%s])", t.From, p.Amount, when, ww.W.LastWalletOp)
+				return
+			}
+		}
+	}
+	ww.rc.S.Probe("c17_handed_out_still_pending_checked")
 }
 
 // c17SigAllCrossMint: fixed scenario: a SIG_ALL P2PK token worth 1 sat issued at the sender's mint is
